@@ -715,7 +715,11 @@ impl Display for LinearModel {
         } else {
             format!(" + {}", self.objective_offset)
         };
-        let objective = format!("{}{}", objective, offset);
+        let objective = match self.optimization_type {
+            // `solve` takes no expression in the grammar
+            OptimizationType::Satisfy => "".to_string(),
+            OptimizationType::Min | OptimizationType::Max => format!(" {}{}", objective, offset),
+        };
         let domain: String = if !self.domain.is_empty() {
             format!(
                 "\ndefine\n    {}",
@@ -729,7 +733,7 @@ impl Display for LinearModel {
         };
         write!(
             f,
-            "{} {}\ns.t.\n{}{}",
+            "{}{}\ns.t.\n{}{}",
             self.optimization_type, objective, constraints, domain
         )
     }
